@@ -65,20 +65,30 @@ def shards(tier, seed):
 	return out
 
 
-def ties_world(rng, n):
+def ties_world(rng, n, style=None):
 	from vf import world as W
 	k, prefix = rng.choice([(7, 'AT'), (8, 'ACG'), (9, 'TA')])
-	w = W.World(k, prefix)
-	W.gen_taxonomy(rng, w, nt=rng.randint(1, 6), names='plain')
 	nq = rng.randint(1, 3)
 	m = 12
-	style = rng.choice(['few-values', 'few-values', 'all-equal', 'all-one', 'mixed'])
+	style = style or rng.choice(['few-values', 'few-values', 'all-equal', 'all-one', 'mixed', 'near-ties'])
+	if style == 'near-ties':
+		# real-size signatures: distances that differ by 1e-6 .. 1e-5 (distinct float32 values that agree to 5 decimals)
+		k, prefix = 11, 'AT'
+		m = rng.choice([1000, 2000, 4000]) if n <= 300 else 1000
+		nq = rng.randint(1, 2)
+	w = W.World(k, prefix)
+	W.gen_taxonomy(rng, w, nt=rng.randint(1, 6), names='plain')
 	combos = [(rng.randint(0, m), rng.randint(0, 3)) for _ in range(rng.choice([1, 2, 3, 5]))]
+	if style == 'near-ties':
+		combos = [(m - rng.randint(0, 3), 0), (m // 2, 0)]
 	B = nq * m
 	for i in range(n):
 		sig = set()
 		for j in range(nq):
-			if style == 'all-equal':
+			if style == 'near-ties':
+				a0, b = rng.choice(combos) if rng.random() < 0.9 else (rng.randint(0, m), 0)
+				a, b = max(a0 - rng.randint(0, 2), 0), rng.randint(0, 3)
+			elif style == 'all-equal':
 				a, b = combos[0]
 			elif style == 'all-one':
 				a, b = 0, 1
@@ -111,7 +121,10 @@ def check_item(ctx, w, qi, item_closest, closest_match_key, N, order, w_desc, wh
 		ctx.violation('list-length', f'{what}: {len(item_closest)} entries for N={N}, n={n}', w_desc)
 		return
 	if got_keys != exp_keys:
-		if sorted(got_keys) == sorted(exp_keys) or [w.dist(qi, int(k.split('g')[-1])) for k in got_keys] == [w.dist(qi, gi) for gi in exp]:
+		gd = [d for _, d, _ in item_closest]
+		if any(b < a for a, b in zip(gd, gd[1:])):
+			mech = 'list-not-in-distance-order'
+		elif sorted(got_keys) == sorted(exp_keys) or [w.dist(qi, int(k.split('g')[-1])) for k in got_keys] == [w.dist(qi, gi) for gi in exp]:
 			mech = 'tie-order-not-reference-order'
 		else:
 			mech = 'list-not-nearest-prefix'
@@ -144,9 +157,11 @@ def run_api(sh, ctx):
 	# one size from each sorting regime first (deterministically covered), the rest drawn at random
 	sizes = [rng.choice([2, 3, 5, 8, 13, 16]), rng.choice([17, 18, 33, 64]), rng.choice([100, 257, 500, 1100])]   # 1100 > default reference chunk size
 	sizes += [rng.choice([1, 2, 3, 5, 8, 13, 16, 17, 18, 33, 64, 100, 257, 500]) for _ in range(max(sh['nworlds'] - 3, 0))]
+	if len(sizes) > 3:
+		sizes[3] = max(sizes[3], 8)      # the near-ties world needs a few references
 	for wi in range(sh['nworlds']):
 		n = sizes[wi]
-		w = ties_world(rng, n)
+		w = ties_world(rng, n, style='near-ties' if wi == 3 else None)
 		order = list(range(n))
 		if rng.random() < 0.5:
 			rng.shuffle(order)
@@ -168,6 +183,9 @@ def run_api(sh, ctx):
 						            row=[w.dist(qi, gi) for gi in order][:40])
 						tie = check_item(ctx, w, qi, lst, item.classifier_result.closest_match.genome.key, N, order, desc, 'query()')
 						ctx.case(('api', wi, qi, N), nontrivial=bool(tie), sample=dict(n=n, N=N, row_head=desc['row'][:10], closest=[x[0] for x in lst[:5]]) if wi == 1 and qi == 0 and N == 10 and chunk is None else None)
+						srow = sorted(set(desc['row']))
+						if any(0 < b - a < 1e-5 for a, b in zip(srow, srow[1:])):
+							ctx.count('rows_with_near_ties')   # distinct distances closer than 1e-5
 						if tie:
 							ctx.count('rows_with_ties')
 							mn = min(desc['row']) if desc['row'] else None
@@ -194,8 +212,8 @@ def run_cli(sh, ctx):
 	from vf import world as W, clidrv
 	rng = random.Random(f'C09-cli-{ctx.seed}')
 	for wi in range(sh['nworlds']):
-		n = rng.choice([3, 8, 17, 40, 120])
-		w = ties_world(rng, n)
+		n = rng.choice([3, 8, 17, 40, 120]) if wi else rng.choice([8, 17, 40])
+		w = ties_world(rng, n, style='near-ties' if wi == 0 else None)
 		order = list(range(n)); rng.shuffle(order)
 		d = w.write_db(ctx.workdir / f'c{wi}', sig_order=order)
 		qs = w.write_query_sigs(ctx.workdir / f'c{wi}_q.gs')
@@ -233,7 +251,7 @@ def run_shard(sh, ctx):
 
 def finalize(merged, tier, seed, inconclusive):
 	c = merged['counters']
-	for n in ['strict_mode_queries', 'rows_with_ties', 'rows_with_tied_minimum', 'n_regime:<=16', 'n_regime:17-64', 'n_regime:>64', 'csv_json_pairs']:
+	for n in ['strict_mode_queries', 'rows_with_ties', 'rows_with_tied_minimum', 'n_regime:<=16', 'n_regime:17-64', 'n_regime:>64', 'csv_json_pairs', 'rows_with_near_ties']:
 		if c.get(n, 0) == 0:
 			inconclusive.append(f'class never observed: {n}')
 	dg = merged['notes'].get('digest_lists', {})
